@@ -313,6 +313,7 @@ func (s *c11Station) zmq(t *testing.T) {
 		}
 		msgs = append(msgs, base[:i])
 	}
+	s.zmqMsgs(msgs)
 	s.zmqChild(t, msgs, true)
 }
 
@@ -1091,6 +1092,12 @@ func (s *c11Station) replay(t *testing.T, path string) {
 		case p[0] == "zmq":
 			s.ingest(unhex(p[1]), "replay")
 			s.zmqChild(t, [][]byte{unhex(p[1])}, false)
+		case p[0] == "zmqmsg":
+			for k := 0; k < 4; k++ {
+				s.rm.EnableIPv4, s.rm.EnableIPv6 = k&1 != 0, k&2 != 0
+				s.zmqCase(unhex(p[1]), "replay")
+			}
+			s.rm.EnableIPv4, s.rm.EnableIPv6 = true, true
 		case p[0] == "zmqpipe":
 			s.zmqChild(t, nil, true)
 		case p[0] == "ingress" && len(p) >= 3 && (p[1] == "min" || p[1] == "prefix" || p[1] == "obfs4"):
